@@ -62,6 +62,8 @@ STEPS = {
     "new-unitary": lambda cfg: setattr(cfg, "unitary", cfg.unitary + 1),
     "edit-circuit": lambda cfg: setattr(cfg, "extra_ps", cfg.extra_ps + 1),
     "param": lambda cfg: setattr(cfg, "param", cfg.param + 0.7),
+    # a parameter update far below any "approximately equal" tolerance of array comparisons (relative 4e-6): the distribution moves by ~1e-6
+    "param-tiny": lambda cfg: setattr(cfg, "param", cfg.param * (1 + 4e-6)),
     "input": lambda cfg: setattr(cfg, "input", [0, 1, 1] if cfg.input == [1, 0, 1] else [1, 0, 1]),
     "herald-photons": lambda cfg: setattr(cfg, "herald", (1 - cfg.herald[0], cfg.herald[1], cfg.herald[2]) if cfg.herald else (1, 3, 3)),
     "herald-mode": lambda cfg: setattr(cfg, "herald", (cfg.herald[0], cfg.herald[1], 2 if cfg.herald[2] == 3 else 3) if cfg.herald else (0, 3, 2)),
@@ -92,13 +94,16 @@ def build_ps(rules):
     return ps
 
 
+HELD = {}     # id(long-lived object) -> the PostSelection object its user handed over and still holds
+
+
 def apply_live(obj, cfg, step, kind):
     """apply the same change to the long-lived object through its public API (in place where the API allows)"""
     from lightworks import emulator
     import lightworks as lw
     if step == "global-threshold":
         lw.settings.sampler_probability_threshold = cfg.threshold
-    elif step == "param":
+    elif step in ("param", "param-tiny"):
         cfg.p_live.set(cfg.param)
     elif step == "edit-circuit":
         obj.circuit.ps(1, 0.5 + cfg.extra_ps - 1)
@@ -110,14 +115,19 @@ def apply_live(obj, cfg, step, kind):
         obj.circuit = c
         obj.input_state = lw.State(cfg.input)
     elif step == "reject-all":
+        HELD.pop(id(obj), None)
         obj.post_select = (lambda s: False) if cfg.reject_all else ((lambda s: True) if not cfg.rules else build_ps(cfg.rules))
     elif step == "ps-assign":
-        obj.post_select = build_ps(cfg.rules)
+        HELD[id(obj)] = build_ps(cfg.rules)     # the user keeps the PostSelection object that is handed over
+        obj.post_select = HELD[id(obj)]
     elif step == "ps-add-rule":
         if isinstance(obj.post_select, lw.PostSelection):
             if (1, (0, 1)) not in [r.as_tuple() for r in obj.post_select.rules] and len(obj.post_select.rules) < len(cfg.rules):
-                obj.post_select.add(1, (0, 1))          # in place, on the object the sampler already holds
+                # in place: through the reference the user kept when there is one (rules are added to the object that was handed over), else on
+                # the object the sampler holds
+                (HELD.get(id(obj)) or obj.post_select).add(1, (0, 1))
         else:
+            HELD.pop(id(obj), None)
             obj.post_select = build_ps(cfg.rules)
     elif step == "brightness" and kind == "sampler":
         obj.source.brightness = cfg.brightness
@@ -246,7 +256,7 @@ def _run_history(kind, steps, first_read):
 
 def histories(tier, kind):
     steps = ([s_ for s_ in STEPS if s_ not in ("reject-all", "ps-assign", "ps-add-rule")] if kind == "sampler" else
-             ["new-unitary", "edit-circuit", "param", "input", "herald-photons", "herald-mode", "herald-both", "herald-swap", "loss", "global-threshold", "bad-input", "reject-all", "ps-assign", "ps-add-rule"])
+             ["new-unitary", "edit-circuit", "param", "param-tiny", "input", "herald-photons", "herald-mode", "herald-both", "herald-swap", "loss", "global-threshold", "bad-input", "reject-all", "ps-assign", "ps-add-rule"])
     out = [()]
     out += [(s,) for s in steps]
     out += list(itertools.permutations(steps, 2))
@@ -286,12 +296,24 @@ def analyzer_histories():
         cc.loss(1, 0.4)
         cc.bs(0, loss=0.2)
         return cc
+    held = {}
+
+    def assign_ps(a):
+        held["ps"] = _ps()
+        a.post_selection = held["ps"]
+
+    def extend_held(a):
+        # the user adds a rule to the PostSelection object that was handed to the analyzer earlier (handing one over first if there is none)
+        if "ps" not in held:
+            assign_ps(a)
+        held["ps"].add(1, (0, 1))
     steps = {"edit": lambda a: a.circuit.ps(0, 0.7), "add-loss": lambda a: a.circuit.loss(0, 0.3), "assign-lossy": lambda a: setattr(a, "circuit", lossy()),
-             "assign-lossless": lambda a: setattr(a, "circuit", lossless()), "ps-rule": lambda a: setattr(a, "post_selection", _ps())}
+             "assign-lossless": lambda a: setattr(a, "circuit", lossless()), "ps-rule": assign_ps, "ps-extend-held": extend_held}
     for seq in [(s_,) for s_ in steps] + list(itertools.permutations(steps, 2)):
         if "herald" in seq and seq[0] != "herald" and seq[-1] != "herald":
             continue
         a = emulator.Analyzer(lossless())
+        held.clear()
         n_in = 3
         try:
             a.analyze([lw.State([1, 1, 0]), lw.State([0, 1, 1])])
@@ -302,7 +324,8 @@ def analyzer_histories():
                 ins = [lw.State([1, 1, 0][:n_in]), lw.State([0, 1, 1][:n_in])]
                 got = a.analyze(ins)
             fr = emulator.Analyzer(a.circuit.copy())
-            fr.post_selection = a.post_selection
+            if "ps" in held:
+                fr.post_selection = build_ps([r.as_tuple() for r in held["ps"].rules])     # the rules the user's object holds now, in a new object
             want = fr.analyze(ins)
         except Exception as e:  # noqa: BLE001
             fails.append(f"analyzer history {list(seq)} raised {type(e).__name__}: {e}")
@@ -365,7 +388,8 @@ def _ps():
     return p
 
 
-def unit(tier="quick", seed=0, kind="sampler", shard=0, nshards=1):
+def unit(tier="quick", seed=0, kind="sampler", shard=0, nshards=1, only=None):
+    """only: restrict the histories to sequences of these step kinds (a sub-family, e.g. parameter updates for C04)"""
     n, fails, sample = 0, [], None
     if kind == "analyzer":
         f = analyzer_histories()
@@ -389,7 +413,10 @@ def unit(tier="quick", seed=0, kind="sampler", shard=0, nshards=1):
             o["replayed"] = "; ".join(f)
             o["replay_spec"] = dict(module="vf.tasks.t_history", func="replay", args=["simulator", None, None])
         return dict(status="ok", obligations=[o], summary=f"simulator: {n} steps")
-    hs = [h for k, h in enumerate(histories(tier, kind)) if k % nshards == shard]
+    hs = histories(tier, kind)
+    if only is not None:
+        hs = [h for h in hs if all(s_ in only for s_ in h)]
+    hs = [h for k, h in enumerate(hs) if k % nshards == shard]
     for steps in hs:
         for first_read in (None, "sample", "sample_N_outputs", "warm-all"):
             n += 1
